@@ -19,7 +19,7 @@ ALPHABET = ['gammadet', 'Ktrace', 's_RicciS', 'rho_n', 'betadown3',
             'alpha', 'gxx', 'rho0']
 SMALL = ['gammadet', 'Momentumx', 'Momentumdownx', 'gammaup3', 's_Gamma_udd3', 's_RicciS', 'Tdown4',
          'st_Riemann_down4', 'Weyl_Psi', 'dtconserved', 'Weyl_invariants',
-         'alpha']
+         'alpha', 'DDalpha', 'press_n']   # names containing input names
 _CFG = None
 _PROBLEMS = None      # filled by the monitored core
 
@@ -249,6 +249,7 @@ class System:
         cls = monitored_class()
         orig_init = cls.__init__
         imp = self.imp
+        expected_inputs = [k for k in steps[0] if k not in self.ops]
 
         class Auto(cls):
             _initial = None
@@ -258,6 +259,15 @@ class System:
                 # request sees, from the very first request on
                 if self._depth == 0 and self._initial is None:
                     self._initial = {k: id(v) for k, v in self.data.items()}
+                    # every column of the step that is not itself requested
+                    # has been loaded (and is therefore frozen)
+                    # (instances holding none of them are the driver's
+                    # dry runs that validate custom functions)
+                    for k in expected_inputs:
+                        if k not in self.data and any(
+                                q in self.data for q in expected_inputs):
+                            _PROBLEMS.append(('F1:driver-input-not-loaded',
+                                              k, key))
                 v = super().__getitem__(key)
                 for k, oid in self._initial.items():
                     if k not in self.data:
